@@ -3,6 +3,7 @@ package c20
 import (
 	"encoding/json"
 	"fmt"
+	"sort"
 	"strings"
 
 	"github.com/hashicorp/hcl/v2"
@@ -428,7 +429,13 @@ func (k *checker) checkMap(pc *partCase) {
 			k.fail("exprmap:keys:"+pc.Syntax, fmt.Sprintf("static pairs give %d distinct keys, the value has %d attributes", len(expect), uw.LengthInt()), in, lib.DumpValue(whole))
 			return
 		}
-		for name, want := range expect {
+		names := make([]string, 0, len(expect))
+		for name := range expect {
+			names = append(names, name)
+		}
+		sort.Strings(names)
+		for _, name := range names {
+			want := expect[name]
 			if !uw.Type().HasAttribute(name) {
 				k.fail("exprmap:keys:"+pc.Syntax, fmt.Sprintf("static key %q is not an attribute of the value", name), in, lib.DumpValue(whole))
 				return
